@@ -21,8 +21,8 @@ Get(r, k, dflt) == IF Has(r, k) THEN r[k] ELSE dflt
 ParseTypeList(v) == IF Has(v, "s") THEN (IF v.s = "" THEN <<>> ELSE <<v.s>>) ELSE v.l
 
 \* extractRefNames: prefix match on the lower-cased fragment; the name keeps its case
-ParseRef(r) ==            \* r = [prefix |-> "/$defs/" | "/definitions/" | "/$DEFS/" ..., name |-> n]
-  [name |-> r.name]
+ParseRef(r) ==            \* r = [prefix |-> "/$defs/" | "/definitions/" | "/$DEFS/" ..., name |-> n]; "#" is [prefix "", name ""]
+  [name |-> r.name, self |-> r.prefix = ""]
 
 RECURSIVE ParseType(_)
 \* a sub-schema written as a boolean is the record [b |-> BOOLEAN]; {} is [empty |-> TRUE]
@@ -36,7 +36,9 @@ ParseType(t) ==
   LET defs == IF Has(t, "$defs") THEN t["$defs"] ELSE IF Has(t, "definitions") THEN t["definitions"] ELSE <<>>
       deps == IF Has(t, "dependentSchemas") THEN t["dependentSchemas"] ELSE IF Has(t, "dependencies") THEN t["dependencies"] ELSE <<>>
   IN [type  |-> ParseTypeList(Get(t, "type", [s |-> ""])),
-      ref   |-> IF Has(t, "$ref") THEN ParseRef(t["$ref"]) ELSE [name |-> ""],
+      ref   |-> IF Has(t, "$ref") THEN ParseRef(t["$ref"]) ELSE [name |-> "", self |-> FALSE],
+      \* text-valued keywords are taken as written (whatever characters they hold)
+      text  |-> <<Get(t, "description", ""), Get(t, "pattern", ""), Get(t, "enum", <<>>)>>,
       props |-> IF Has(t, "properties") THEN ParseMap(t["properties"]) ELSE <<>>,
       items |-> IF Has(t, "items") THEN ParseSub(t["items"]) ELSE [absent |-> TRUE],
       addl  |-> IF Has(t, "additionalProperties") THEN ParseSub(t["additionalProperties"]) ELSE [absent |-> TRUE],
